@@ -21,7 +21,7 @@ func init() {
 			"SetBytes(Arguments[k]) (non-negative by construction), its negation, or the current holding of the credited entry. R3: entry points whose supply column is 0 (and the toggles) contain no Value mutation and no store to ESDigitalToken.Value of a read entry. " +
 			"R4: the delete performed by ESDTWipe is cut by Frozen == true of the entry read from the same account and key. Does NOT decide: that the stored number equals old ± amount (arithmetic of math/big).",
 		Trusted: []string{"math/big Add/Sub/Neg/Cmp semantics", "T-REG supply column restating the property"},
-		Rules:   []func(*Ctx){c02r1, c02r2, c02r4, c02r5},
+		Rules:   []func(*Ctx){c02r1, c02r2, c02r4, c02r5, c02r6, c02r7},
 	})
 }
 
@@ -405,4 +405,15 @@ func c02r4(c *Ctx) {
 	if n == 0 {
 		c.Anchor(rule, "the delete performed by ESDTWipe")
 	}
+}
+
+
+// c02r6 / c02r7: clauses of the statement that sibling properties decide, claimed here as well so that C02 stands on its
+// own: a credit raises the balance by exactly the amount only if the existing holding is added (C01-R1), and "creates under a
+// fresh nonce / lowers the caller's balance" presupposes that (token, nonce) determines the storage key (C05-R3 key layout).
+func c02r6(c *Ctx) {
+	c.shareRule(c01r1, "C01-R1", "C02-R6", "a credit saves amount + existing holding (no overwrite)", nil)
+}
+func c02r7(c *Ctx) {
+	c.shareRule(c05r3, "C05-R3", "C02-R7", "balance keys are prefix‖token‖Bytes(nonce): distinct (token, nonce) never share an entry", nil)
 }
